@@ -200,6 +200,39 @@ func gen(repo string) (map[string]string, error) {
 	fact("ipSweepSkipsMissingDir", strings.Contains(cis, "fis, err := ioutil.ReadDir(dir) if err != nil { if os.IsNotExist(err) { continue }") &&
 		strings.Contains(cis, "for _, dir := range gc.allocatedIPDir"),
 		"cleanupIP: every directory of allocatedIPDir, unreadable ones skipped", "loop header changed")
+	// no entry (and no directory) can end the round for the others: the collectors' loops contain no return / break /
+	// goto / panic, and shouldCleanup has no error result a caller could propagate
+	noEarlyExit := func(fd *ast.FuncDecl) bool {
+		ok := true
+		for _, st := range fd.Body.List {
+			loop, isLoop := st.(*ast.RangeStmt)
+			if !isLoop {
+				continue
+			}
+			ast.Inspect(loop.Body, func(n ast.Node) bool {
+				switch x := n.(type) {
+				case *ast.ReturnStmt:
+					ok = false
+				case *ast.BranchStmt:
+					if x.Tok != token.CONTINUE || x.Label != nil {
+						ok = false
+					}
+				case *ast.CallExpr:
+					if id, isID := x.Fun.(*ast.Ident); isID && id.Name == "panic" {
+						ok = false
+					}
+				case *ast.FuncLit:
+					return false
+				}
+				return true
+			})
+		}
+		return ok
+	}
+	boolOnly := sc.Type.Results != nil && len(sc.Type.Results.List) == 1 && len(sc.Type.Results.List[0].Names) <= 1 &&
+		p.Src(sc.Type.Results.List[0].Type) == "bool"
+	fact("shouldCleanupReturnsOnlyBool", boolOnly, "shouldCleanup(cid string) bool — no error result that a collector could propagate",
+		"result list is now "+squash(p.Src(sc.Type)))
 	cg, err := p.Fn("flannelGC", "cleanupGCDirs")
 	if err != nil {
 		return nil, err
@@ -209,6 +242,9 @@ func gen(repo string) (map[string]string, error) {
 	fact("gcSweepRemovesOnlyIfShouldCleanup", strings.Contains(cgs, "if gc.shouldCleanup(fi.Name()) { gc.removeLeakyStateFile(filepath.Join(dir, fi.Name())) }") &&
 		strings.Count(cgs, "removeLeakyStateFile(") == 1 && strings.Count(cgs, "os.Remove") == 0 && strings.Contains(cgs, "for _, dir := range gc.gcDirs"),
 		"cleanupGCDirs: the only removal is `if gc.shouldCleanup(fi.Name()) { gc.removeLeakyStateFile(…) }`, file name = container id", "removal site changed")
+	fact("sweepsNeverEndTheRoundEarly", noEarlyExit(ci) && noEarlyExit(cg),
+		"cleanupIP / cleanupGCDirs: the directory and entry loops contain no return, break, goto or panic (only `continue`): one entry's inspect error cannot keep the collector from the entries and directories after it",
+		"a loop of cleanupIP or cleanupGCDirs can now be left early")
 	rl, err := p.Fn("flannelGC", "removeLeakyStateFile")
 	if err != nil {
 		return nil, err
